@@ -41,13 +41,12 @@ pub fn dead_code_elimination(function: &il::Function) -> Result<il::Function, Er
             };
             let rpl = il::RefProgramLocation::new(function, rfl);
 
-            rd.get(&rpl.into())
-                .unwrap()
-                .locations()
-                .iter()
-                .for_each(|location| {
+            // blocks unreachable from the entry have no reaching definitions
+            if let Some(block_rd) = rd.get(&rpl.into()) {
+                block_rd.locations().iter().for_each(|location| {
                     live.insert(location.function_location().clone());
                 });
+            }
         });
 
     for block in function.blocks() {
@@ -68,9 +67,11 @@ pub fn dead_code_elimination(function: &il::Function) -> Result<il::Function, Er
                             });
                         }
                     }
-                    rd[&rpl.into()].locations().iter().for_each(|location| {
-                        live.insert(location.function_location().clone());
-                    });
+                    if let Some(instruction_rd) = rd.get(&rpl.into()) {
+                        instruction_rd.locations().iter().for_each(|location| {
+                            live.insert(location.function_location().clone());
+                        });
+                    }
                 }
                 _ => {}
             }
@@ -103,7 +104,12 @@ pub fn dead_code_elimination(function: &il::Function) -> Result<il::Function, Er
                 .unwrap_or(false)
         })
         .filter(|location| !live.contains(&location.clone().into()))
-        .filter(|location| du[&location.clone().program_location(function).into()].is_empty())
+        // code unreachable from the entry is not analysed, and left alone
+        .filter(|location| {
+            du.get(&location.clone().program_location(function).into())
+                .map(|uses| uses.is_empty())
+                .unwrap_or(false)
+        })
         .map(|l| l.into())
         .collect::<Vec<il::FunctionLocation>>();
 
